@@ -14,6 +14,10 @@ impl<T> Clone for Vec<T> {
     #[verifier::external_body]
     fn clone(&self) -> (r: Self) ensures r == *self { unimplemented!() }
 }
+/// the SDK takes `impl Borrow<T>` where it compares values: both `x` and `&x` are accepted
+pub trait VxBorrow<T> { spec fn bv(&self) -> T; }
+impl<T> VxBorrow<T> for T { open spec fn bv(&self) -> T { *self } }
+impl<T> VxBorrow<T> for &T { open spec fn bv(&self) -> T { **self } }
 pub open spec fn seq_index_of<T>(s: Seq<T>, x: T) -> int
     decreases s.len()
 {
@@ -112,21 +116,21 @@ impl<T> Vec<T> {
     pub fn append(&mut self, other: &Vec<T>) ensures final(self)@ == old(self)@ + other@ { unimplemented!() }
     /// host comparison of values is structural
     #[verifier::external_body]
-    pub fn contains(&self, x: &T) -> (r: bool) ensures r == self@.contains(*x) { unimplemented!() }
+    pub fn contains<B: VxBorrow<T>>(&self, x: B) -> (r: bool) ensures r == self@.contains(x.bv()) { unimplemented!() }
     /// host comparison of values is structural
     #[verifier::external_body]
-    pub fn last_index_of(&self, x: &T) -> (r: Option<u32>)
+    pub fn last_index_of<B: VxBorrow<T>>(&self, x: B) -> (r: Option<u32>)
         ensures match r {
-            Some(p) => (p as int) < self@.len() && self@[p as int] == *x && forall|q: int| (p as int) < q < self@.len() ==> self@[q] != *x,
-            None => !self@.contains(*x),
+            Some(p) => (p as int) < self@.len() && self@[p as int] == x.bv() && forall|q: int| (p as int) < q < self@.len() ==> self@[q] != x.bv(),
+            None => !self@.contains(x.bv()),
         },
     { unimplemented!() }
     #[verifier::external_body]
-    pub fn first_index_of(&self, x: &T) -> (r: Option<u32>)
-        ensures r.is_some() <==> self@.contains(*x),
-            r.is_some() ==> r.unwrap() as int == seq_index_of(self@, *x),
-            r.is_some() ==> (r.unwrap() as int) < self@.len() && self@[r.unwrap() as int] == *x
-                && forall|j: int| 0 <= j < r.unwrap() ==> self@[j] != *x,
+    pub fn first_index_of<B: VxBorrow<T>>(&self, x: B) -> (r: Option<u32>)
+        ensures r.is_some() <==> self@.contains(x.bv()),
+            r.is_some() ==> r.unwrap() as int == seq_index_of(self@, x.bv()),
+            r.is_some() ==> (r.unwrap() as int) < self@.len() && self@[r.unwrap() as int] == x.bv()
+                && forall|j: int| 0 <= j < r.unwrap() ==> self@[j] != x.bv(),
     { unimplemented!() }
     #[verifier::external_body]
     pub fn iter(&self) -> (r: VecIter<T>) ensures r.items@ == self@, r.pos@ == 0, r.rem() == self@, self@.len() <= u32::MAX { unimplemented!() }
